@@ -465,7 +465,7 @@ func (f *Frame) eval1(v ssa.Value) AV {
 			// fills in field by field (`cc := &T{F: v}; if cc.F == "" {...}`):
 			// the one store to that field that lies in a live block
 			if fa, ok := x.X.(*ssa.FieldAddr); ok {
-				if al, ok := fa.X.(*ssa.Alloc); ok && onlyFieldwise(al) {
+				if al, ok := fa.X.(*ssa.Alloc); ok && (onlyFieldwise(al) || fieldwiseBut(f.ev.c, al, fa.Field)) {
 					var reaching *ssa.Store
 					n := 0
 					for _, ref := range *al.Referrers() {
@@ -1249,6 +1249,65 @@ func readOnlyStructCopy(al *ssa.Alloc) ssa.Value {
 // onlyFieldwise: the allocation is used only through field addresses (stores
 // and loads of single fields), as a returned value, or as the receiver /
 // argument of nothing at all - nobody else can have written its fields.
+// fieldwiseBut: like onlyFieldwise, but the struct may also be handed to
+// module functions (as receiver or argument) that never write the given field
+// through it and hand it on to nobody but functions of the same kind.
+func fieldwiseBut(c *Ctx, al *ssa.Alloc, field int) bool {
+	if al.Referrers() == nil {
+		return false
+	}
+	if _, isStruct := derefType(al.Type()).Underlying().(*types.Struct); !isStruct {
+		return false
+	}
+	var leaves func(v ssa.Value, depth int) bool
+	leaves = func(v ssa.Value, depth int) bool {
+		if v.Referrers() == nil {
+			return true
+		}
+		for _, ref := range *v.Referrers() {
+			switch x := ref.(type) {
+			case *ssa.FieldAddr:
+				if x.X != v || x.Field != field || x.Referrers() == nil {
+					continue
+				}
+				if depth == 0 {
+					continue // the allocating function's own stores are the ones modelled
+				}
+				for _, r2 := range *x.Referrers() {
+					if _, isLoad := r2.(*ssa.UnOp); !isLoad {
+						if _, isDbg := r2.(*ssa.DebugRef); !isDbg {
+							return false
+						}
+					}
+				}
+			case *ssa.Return, *ssa.DebugRef:
+				if depth > 0 {
+					if _, isRet := ref.(*ssa.Return); isRet {
+						return false
+					}
+				}
+			case *ssa.Call:
+				sc := x.Call.StaticCallee()
+				if sc == nil || len(sc.Blocks) == 0 || !c.isModuleFunc(sc) || depth >= 2 {
+					return false
+				}
+				for i, a := range x.Call.Args {
+					if a != v {
+						continue
+					}
+					if i >= len(sc.Params) || !leaves(sc.Params[i], depth+1) {
+						return false
+					}
+				}
+			default:
+				return false
+			}
+		}
+		return true
+	}
+	return leaves(al, 0)
+}
+
 func onlyFieldwise(al *ssa.Alloc) bool {
 	if al.Referrers() == nil {
 		return false
